@@ -1,18 +1,18 @@
 CONSTANTS
   Variant = "fixed"
   Hosts <- Hosts3
-  Paths <- Paths3
+  Paths <- Paths2
   Names <- Names1
   DomAttrs <- DomAll
   PathAttrs <- PathFoo
   Kinds <- KSetDel
-  Codes <- CodesLoop4
-  Locs <- LocsHosts
-  Methods <- MGetPost
+  Codes <- CodesJar
+  Locs <- LocsLocal
+  Methods <- MGet
   Schemes <- SHttp
   Reads <- RNo
-  Allows <- ABoth
-  MaxOpens = 2
+  Allows <- ANo
+  MaxOpens = 3
   MaxResp = 2
   MaxSC = 1
   Label = TRUE
